@@ -1,7 +1,7 @@
 From Coq Require Import List NArith Bool.
 From V.C04 Require Model.
 From V.C13 Require Import Model Proofs Flush Inbound Tables TwoNode TwoNodeProofs.
-From V.Ts Require Model Extra.
+From V.Ts Require Model Proofs Answers Extra.
 From V.Link Require Ts_C13.
 Import ListNotations.
 Open Scope N_scope.
@@ -259,3 +259,24 @@ Check (C13_service_joint_history_nonvacuous :
   grun cf g0 (run_steps cf (init_pst, init_env) (V.Link.Ts_C13.evs_of ms)) = mkG 0 [] [] [] [] /\
   snd (run cf (init_pst, init_env) (V.Link.Ts_C13.evs_of ms)) =
     [OSent 0; OOpen 0 5; OBind 0 0; OWire 0 3 9; OResp 0 4 8; OSent 1; OOpen 1 5; OFail 1 4]).
+Check (C13_task_contract_empties_service :
+  forall (s0 : V.Ts.Model.st) (tr : list (N * V.Ts.Model.ev)),
+  V.Ts.Answers.pend_inv s0 -> V.Ts.Model.s_pend s0 = [] -> V.Ts.Proofs.nowrap s0 tr ->
+  V.Link.Ts_C13.task_contract s0 tr ->
+  V.Ts.Model.s_pend (V.Ts.Model.final s0 tr) = []).
+Check (C13_exactly_one_on_service_model_contract :
+  forall (cf : cfg) (ka : bool) (T0 n0 : N) (ms : list V.Link.Ts_C13.jmove) (r : N),
+  0 < tmo cf ->
+  V.Link.Ts_C13.jtrace cf (V.Link.Ts_C13.j0 ka T0 n0) ms ->
+  V.Ts.Proofs.nowrap (V.Ts.Model.init ka T0 n0) (V.Link.Ts_C13.tr_of ms) ->
+  V.Link.Ts_C13.task_contract (V.Ts.Model.init ka T0 n0) (V.Link.Ts_C13.tr_of ms) ->
+  V.Link.Ts_C13.lost_run (V.Ts.Model.init ka T0 n0) (V.Link.Ts_C13.tr_of ms) = [] ->
+  let g := grun cf g0 (run_steps cf (init_pst, init_env) (V.Link.Ts_C13.evs_of ms)) in
+  g_dials g = [] ->
+  (forall x, In x (g_live g) -> snd x <= g_now g) ->
+  let res := run cf (init_pst, init_env) (V.Link.Ts_C13.evs_of ms) in
+  In (OSent r) (snd res) ->
+  terms r (snd res) = 1%nat \/ In r (cancel_reqs (V.Link.Ts_C13.evs_of ms))).
+Check (C13_service_contract_nonvacuous :
+  V.Link.Ts_C13.task_contract (V.Ts.Model.init true 1000 0) (V.Link.Ts_C13.tr_of V.Link.Ts_C13.ms_ok) /\
+  V.Ts.Proofs.nowrap (V.Ts.Model.init true 1000 0) (V.Link.Ts_C13.tr_of V.Link.Ts_C13.ms_ok)).
